@@ -131,10 +131,16 @@ def ob_from_offsets(perm, metros, gaps, ctx, via_list=None):
         after = [list(col(bl.df, c)) for c in bl.df.columns]
         ctx.check("bpm-list.untouched", all(a is b or (not isinstance(a, SymNum) and a == b) for x, y in zip(before, after) for a, b in zip(x, y)))
     bco = tm.bpm_changes_offset
-    ctx.check("changes.len", len(bco) == n)
+    ctx.check("changes.in-time-order", ctx.all(*[ctx.le(a.offset, b.offset) for a, b in zip(bco, bco[1:])]))
+    # the change active at the time of every given change carries that change's bpm and metronome (a point that repeats both
+    # may be dropped by an implementation; the order of the given list is irrelevant)
     for j in range(n):
-        ctx.check("change%d.in-time-order-with-its-own-bpm-and-metronome" % j,
-                  ctx.all(ctx.eq(bco[j].offset, ts[j]), ctx.eq(bco[j].bpm * Ls[j], 60000), bco[j].metronome == metros[j]))
+        act = None
+        for c in bco:
+            if ctx.le(c.offset, ts[j]):
+                act = c
+        ctx.check("change%d.active-at-its-time-with-its-own-bpm-and-metronome" % j,
+                  False if act is None else ctx.all(ctx.eq(act.bpm * Ls[j], 60000), act.metronome == metros[j]))
     # position <-> ms on top of it
     changes = []
     meas = 0
@@ -211,6 +217,66 @@ def ob_roundtrip_free(L0, L1, lo, hi, ctx):
     tol = Lq * (F(1, 192) + SLACK)
     ctx.check("roundtrip.within-1/192-beat", ctx.all(ctx.le(back - o, tol), ctx.le(o - back, tol)), note="snap %r" % (s,))
     ctx.observe("back", back)
+
+
+def ob_custom_snapper(divs, lo, hi, ctx, via="snaps"):
+    """TimingMap.snaps / beats with a caller-supplied Snapper: the position comes from *that* snapper's table"""
+    TimingMap, BCS, BCO, Snap, Snapper = _tm()
+    Lc, off = F(500), F(-12)
+    tm = TimingMap.from_bpm_changes_snap(off, [BCS(60000 / Lc, 4, Snap(0, 0, 4))], reseat=False)
+    x = ctx.real("beats")
+    ctx.assume(x >= lo)
+    ctx.assume(x < hi)
+    sn = Snapper(divisions=divs)
+    table = _allowed(max(divs))
+    if via == "snaps":
+        s = tm.snaps([off + x * Lc], sn)[0]
+        pos = s.measure * 4 + s.beat
+    else:
+        pos = tm.beats([off + x * Lc], sn)[0]
+    fl = x.floor() if isinstance(x, SymNum) else F(x).__floor__()
+    frac = pos - fl
+    ctx.check("custom-snapper.position-is-on-its-table", ctx.any(*[ctx.eq(frac, g) for g in table]), note="%r" % ctx.value(frac))
+    if not isinstance(frac, SymNum) and F(frac) in table:
+        i = table.index(F(frac))
+        lo_cell = fl + (table[i - 1] + table[i]) / 2 if i > 0 else fl + table[0] - F(1, 2)
+        hi_cell = fl + (table[i] + table[i + 1]) / 2 if i + 1 < len(table) else fl + table[-1] + F(1, 2)
+        ctx.check("custom-snapper.nearest-on-its-table", ctx.all(ctx.ge(x, lo_cell - SLACK), ctx.le(x, hi_cell + SLACK)))
+    ctx.observe("pos", pos)
+
+
+def ob_edit_records(what, ctx):
+    """the tempo records of a TimingMap are its ground truth: after editing one in place, conversions follow the edit"""
+    TimingMap, BCS, BCO, Snap, Snapper = _tm()
+    L = ctx.reals("L", 2)
+    for x in L:
+        ctx.assume(x > 0)
+    off = ctx.real("off")
+    changes = [(0, 0, 4), (2, 0, 4)]
+    tm = TimingMap.from_bpm_changes_snap(off, [BCS(_bpm(L[i]), M, Snap(m, F(b), M)) for i, (m, b, M) in enumerate(changes)], reseat=False)
+    qs = [(3, F(1, 2)), (1, 1), (2, 0), (5, F(3))]
+    first = list(tm.offsets([Snap(m, F(b), None) for m, b in qs]))
+    for i, q in enumerate(qs):
+        ctx.check("before-edit.offsets[%d]" % i, ctx.eq(first[i], _ms_of(changes, L, off, q)))
+    pre = list(tm.snaps([_ms_of(changes, L, off, q) for q in qs], Snapper()))  # both directions are used before the edit
+    for i, s in enumerate(pre):
+        ctx.check("before-edit.snaps[%d].back-to-same-time" % i, ctx.eq(tm.offsets([s])[0], first[i]))
+    if what == "bpm":
+        Ln = ctx.real("Lnew")
+        ctx.assume(Ln > 0)
+        tm.bpm_changes_offset[1].bpm = _bpm(Ln)
+        L2, ch2 = [L[0], Ln], changes
+    else:
+        tm.bpm_changes_offset[1].metronome = 3
+        L2, ch2 = L, [(0, 0, 4), (2, 0, 3)]
+    second = list(tm.offsets([Snap(m, F(b), None) for m, b in qs]))
+    for i, q in enumerate(qs):
+        ctx.check("after-edit.offsets[%d].follow-the-edited-record" % i, ctx.eq(second[i], _ms_of(ch2, L2, off, q)), note="query %s" % (q,))
+        ctx.observe("after[%d]" % i, second[i])
+    times = [_ms_of(ch2, L2, off, q) for q in qs]
+    back = list(tm.snaps(times, Snapper()))
+    for i, s in enumerate(back):
+        ctx.check("after-edit.snaps[%d].back-to-same-time" % i, ctx.eq(tm.offsets([s])[0], times[i]))
 
 
 def ob_snap_arith(M, ctx):
@@ -322,6 +388,12 @@ def obligations(tier, seed):
                               bound="ms->snap->ms of a free symbolic time, 160 bpm, time in beats [%s,%s) after the change" % (lo + 5, hi + 5), max_paths=30000, timeout_s=900))
         obs.append(Obligation("C10/roundtrip-free/two-tempos/beat[%s,%s)" % (lo + 2, hi + 2), partial(ob_roundtrip_free, F(500), F(1000, 3), lo + 2, hi + 2),
                               bound="ms->snap->ms of a free symbolic time in the second of two tempo segments (120 -> 180 bpm), beats [%s,%s)" % (lo + 2, hi + 2), max_paths=30000, timeout_s=900))
+    for divs in ((1, 2, 4), (1, 2, 3, 4, 6, 8)):
+        for via in ("snaps", "beats"):
+            obs.append(Obligation("C10/custom-snapper/div=%s/%s" % ("-".join(map(str, divs)), via), partial(ob_custom_snapper, divs, F(5), F(6), via=via),
+                                  bound="TimingMap.%s of a free symbolic time with Snapper(divisions=%s): one whole beat" % (via, divs), max_paths=5000, timeout_s=300))
+    for what in ("bpm", "metronome"):
+        obs.append(Obligation("C10/edit-record/%s" % what, partial(ob_edit_records, what), bound="two tempo records, the second one's %s edited in place between conversions; symbolic beat lengths" % what))
     for M in ((4, 3) if quick else (1, 2, 3, 4, 5, 7, 8)):
         obs.append(Obligation("C10/snap-arith/metronome%d" % M, partial(ob_snap_arith, M),
                               bound="Snap(measure, beat, %d) with symbolic integer measure in [0,3] and symbolic real beat; subtraction; offset" % M, max_paths=5000, timeout_s=300))
